@@ -8,7 +8,6 @@ permutations of the entry list (keys are distinct – it is a map).  One model f
 regenerated table `Facts.mapRangeSites` (see `siteTable` in Spec/DetOrder.lean):
 
   cmd/shoot main                       range srcMap                 → `writeAll`   (files) + `messageOf` (log)
-  shoot.getGoFile                      range pkg.TypesInfo.Defs     → `getGoFile`  (first match wins)
   shoot.(*GeneratorBase).LoadPackage   range g.overlay              → `messageOf`  (-v log line only)
   restclient.cookClient                range asMap                  → `reverseMap` (last writer wins)
   restclient.cookClient                range headers                → `putAll`     (distinct keys)
@@ -56,18 +55,31 @@ def reverseMap (ord : Entries String String) : Entries String String :=
 def realPathParams (ord : Entries String String) (pathParams : List String) : List String :=
   pathParams.map (fun p => (get (reverseMap ord) p).getD p)
 
-/-! ## first match wins: `getGoFile` (generatorbase.go:296-313) -/
+/-! ## `getGoFile` (generatorbase.go)
 
-/-- an entry of `TypesInfo.Defs`: the defined name, whether the object is a `*types.TypeName`, and the
-    base name of the file that contains the definition -/
+Until fix f3054bd this function ranged over the map `TypesInfo.Defs` and returned the file of the FIRST
+`*types.TypeName` of the requested name – type parameters and function-local types included, so the output file
+name varied from run to run (`getGoFileBefore`, kept for the record).  Now it is a package-scope look-up: no
+iteration, and only the package-level type counts (`getGoFile`). -/
+
+/-- a definition: the defined name, whether the object is a `*types.TypeName`, whether it is declared at
+    package level, and the base name of the file that contains it -/
 structure Def where
   name : String
   isTypeName : Bool
   file : String
+  pkgLevel : Bool := true
   deriving DecidableEq, Repr, Inhabited
 
-def getGoFile (ord : List Def) (typeName : String) : String :=
+/-- before f3054bd: first match in map order -/
+def getGoFileBefore (ord : List Def) (typeName : String) : String :=
   match ord.find? (fun d => d.isTypeName && d.name = typeName) with
+  | some d => d.file
+  | none => ""
+
+/-- `pkg.Types.Scope().Lookup(typeName)`: package-level names are unique, the scope is not iterated -/
+def getGoFile (scope : List Def) (typeName : String) : String :=
+  match scope.find? (fun d => d.pkgLevel && d.isTypeName && d.name = typeName) with
   | some d => d.file
   | none => ""
 
